@@ -18,6 +18,7 @@ re.match / re.search on a string value (False on anything that is not a string);
 f(value,*a); noop is True; ~ & | are Boolean.
 """
 
+import datetime as _dt
 import operator
 import re
 
@@ -145,6 +146,16 @@ OPS = {
 _ATTR_IDX = {"time": 0, "measurement": 1, "tags": 2, "fields": 3}
 
 
+_EPOCH = _dt.datetime(1970, 1, 1, tzinfo=_dt.timezone.utc)
+
+
+def _instant_us(t):
+    if t.tzinfo is None:
+        t = t.astimezone()
+    d = t - _EPOCH
+    return (d.days * 86400 + d.seconds) * 10**6 + d.microseconds
+
+
 class _Undefined(Exception):
     pass
 
@@ -179,6 +190,10 @@ def ref_eval(q, rp):
         if k == "cmp":
             _, attr, path, op, rhs = q
             v = _resolve(attr, path, rp)
+            if isinstance(v, _dt.datetime) and isinstance(rhs, _dt.datetime):
+                # documented meaning: instants are compared; a naive value is local time (never Python's
+                # "naive and aware are incomparable", never PEP 495's inter-zone fold rule)
+                v, rhs = _instant_us(v), _instant_us(rhs)
             try:
                 return bool(OPS[op](v, rhs))
             except Exception:
